@@ -22,6 +22,7 @@ import (
 	"fmt"
 	"os"
 	"path/filepath"
+	"runtime"
 	"sync"
 	"sync/atomic"
 	"time"
@@ -261,6 +262,7 @@ func main() {
 					ids := make([]string, e.N)
 					outs := make([]string, e.N)
 					var wg sync.WaitGroup
+					var arrived atomic.Int64
 					start := make(chan struct{})
 					for i := 0; i < e.N; i++ {
 						ids[i] = fmt.Sprintf("s%d", i)
@@ -268,6 +270,10 @@ func main() {
 						go func(i int) {
 							defer wg.Done()
 							<-start
+							arrived.Add(1)
+							for spins := 0; arrived.Load() < int64(e.N) && spins < 1_000_000; spins++ {
+								runtime.Gosched() // all goroutines of the storm reach the real code together
+							}
 							ev := rn.do(Op{Op: "req", T: ids[i], Flow: e.Flow})
 							outs[i] = fmt.Sprint(ev["out"])
 						}(i)
